@@ -17,6 +17,8 @@ CONSTANTS
   Bug_WriteErrorSwallowed = FALSE
   Bug_ManifestErrorSwallowed = FALSE
   Bug_FileCounterNotRestored = FALSE
+  Compaction = FALSE
+  Bug_InputsDeletedBeforeManifest = FALSE
 INVARIANTS Durable RecoveryEnabled CurrentAlwaysValid DiskHoldsAcked
 CONSTRAINT Bound
 CHECK_DEADLOCK FALSE
